@@ -15,7 +15,8 @@ CELL = re.compile('\033\\[(\\d+m)(.*?)\033\\[0m', re.S)
 NAMES = [None, '', 'a', 'n' * 20]
 LONG = 'v' * 30
 FIELDSETS = [None, ['id'], ['name'], ['resource'], ['estimate'], ['spent'], ['start'], ['end'], ['predecessors'], ['successors'],
-             ['parent'], ['id', 'name', 'nosuch'], ['TAG', 'name'], ['name', 'id', 'predecessors', 'successors', 'parent', 'tag', 'milestone']]
+             ['parent'], ['id', 'name', 'nosuch'], ['TAG', 'name'], ['id', 'children', 'name'], ['wbs', 'all_parents', 'name'],
+             ['all_children', 'all_successors', 'PREDECESSORS', 'to_dict'], ['name', 'id', 'predecessors', 'successors', 'parent', 'tag', 'milestone']]
 DEFAULT_FIELDS = ['id', 'name', 'resource', 'estimate', 'spent', 'start', 'end', 'predecessors']
 THEMES = [None, {'header_color': '91m', 'level_colors': ['94m']}, {'level_colors': ['96m', '93m', '95m', '91m']}]
 
@@ -121,7 +122,8 @@ def check_sheet(text, shown, objs, fields, V, P):
                     V('name-indent', f'task {t.id} at level {lvl}: name cell {cell!r}, expected {exp!r}')
                 if lvl > 0:
                     P('indented-task')
-            elif f == 'nosuch':
+            elif f in ('nosuch', 'children', 'wbs', 'all_parents', 'all_children', 'all_successors', 'PREDECESSORS', 'to_dict'):
+                # not a sheet column and not an attribute stored on the task: an unknown field
                 if cell.strip() != '':
                     V('unknown-field-not-empty', f'task {t.id}: {cell!r}')
                 P('unknown-field')
